@@ -815,7 +815,7 @@ func c42GitBig(c *rig.Ctx, part uint64) []int {
 		return []int{40}
 	}
 	if part > 0 {
-		return []int{40, 1000, int(part) * 3000}
+		return []int{40, 1000, int(part) * 400} // every part read is a git process: keep part counts in the hundreds
 	}
 	return []int{40, 1000, 100000}
 }
@@ -878,7 +878,7 @@ func c42Git(c *rig.Ctx) {
 			var gb *blobstore.GitBlobstore
 			gb, err = g.instance(mode.part)
 			if err == nil {
-				rangeAndConcat(c, mode.name, gb, r, []int{0, 3, 13}, int64(c.Pick(0, 5)), c.Pick(9, 150), c42GitBig(c, mode.part), []int{3}, &rs)
+				rangeAndConcat(c, mode.name, gb, r, []int{0, 3, 13}, int64(c.Pick(0, 5)), c.Pick(9, 60), c42GitBig(c, mode.part), []int{3}, &rs)
 			}
 		}
 		if err != nil {
